@@ -311,7 +311,7 @@ static void transfer_output_from(FILE *tmpfile, XmlPrinter printer, FILE *out) {
     fseek(tmpfile, 0, SEEK_SET);
     char buffer[1000];
     while (fgets(buffer, 1000, tmpfile) != NULL)
-        printer(out, buffer);
+        printer(out, "%s", buffer);
 }
 
 
